@@ -4,8 +4,9 @@
 //! A case line is
 //!   `cell <mode> S1=<err>,<err>.. S2=.. : <label> <label> ..`
 //! with `<mode>` = `pce` (the driver calls `ConnectionInner::poll_connection_error` /
-//! `handle_connection_error` directly) or `acc` (the driver polls the future of
-//! `server::Connection::accept`), `<err>` = `I<code>.<tag>` (`InternalConnectionError`),
+//! `handle_connection_error` directly), `acc` (the driver polls the future of
+//! `server::Connection::accept`), `clo` (the driver calls `client::Connection::poll_close`) or
+//! `idl` (the driver polls the future of `client::Connection::wait_idle`), `<err>` = `I<code>.<tag>` (`InternalConnectionError`),
 //! `Qa<code>` (`ApplicationClose`), `Qt` (`Timeout`), `Qi.<tag>` (`InternalError`), `Qu.<tag>`
 //! (`Undefined`), and `<label>` = `D.poll | D.pce | D.det:<err> | D.park | S<k>`.
 //!
@@ -84,7 +85,13 @@ fn internal_of(c: u64, t: u64) -> InternalConnectionError {
     InternalConnectionError::new(Code::from(c), format!("m{}", t))
 }
 
+/// the one error h3 detects itself in the real-future modes of the client (label `D.det:I259.0`)
+const SERVER_BIDI: &str = "client received a server-initiated bidirectional stream";
+
 fn tag_of(reason: &str) -> String {
+    if reason == SERVER_BIDI {
+        return "0".into();
+    }
     reason.strip_prefix('m').unwrap_or("?").to_string()
 }
 
@@ -134,7 +141,7 @@ fn show_origin(e: &ErrorOrigin) -> String {
             // `InternalConnectionError { code: NAME, message: "m7" }`
             let d = format!("{:?}", i);
             let code = d.split("code: ").nth(1).and_then(|r| r.split(',').next()).and_then(code_value);
-            let tag = d.split("message: \"m").nth(1).and_then(|r| r.split('"').next()).unwrap_or("?").to_string();
+            let tag = tag_of(d.split("message: \"").nth(1).and_then(|r| r.split('"').next()).unwrap_or("?"));
             match code {
                 Some(c) => format!("I{}.{}", c, tag),
                 None => "I?".into(),
@@ -483,26 +490,83 @@ fn driver_thread_pce(ctl: Arc<Ctl>, flag: Arc<Flag>, tx: mpsc::Sender<Arc<Shared
     ME.with(|m| *m.borrow_mut() = None);
 }
 
-/// The driver thread, mode `acc`: `D.poll` starts one poll of the `accept()` future, which
-/// runs up to the first `poll_connection_error`; the following `D.pce` labels run it from
-/// pre-emption point to pre-emption point; after the last `poll_connection_error` of the poll
-/// the transport's `poll_accept_bidi` is reached, where `D.park` makes the transport answer
-/// `Pending` and `D.det:<quic error>` makes it fail with that error.
-fn driver_thread_acc(ctl: Arc<Ctl>, flag: Arc<Flag>, tx: mpsc::Sender<Arc<SharedState>>) {
-    let net = Net::new(true);
-    let mut conn = build_server(&net);
-    let _ = tx.send(conn.inner.shared.clone());
-    ME.with(|m| *m.borrow_mut() = Some(Me { ctl: ctl.clone(), id: 0, acc: true, rounds: 0, net: Some(net.clone()) }));
-    // the transport stops the driver thread inside `poll_accept_bidi`
+/// how the driver is run
+#[derive(Clone, Copy, PartialEq)]
+enum Mode {
+    /// direct calls of `poll_connection_error` / `handle_connection_error`
+    Pce,
+    /// the future of `server::Connection::accept`
+    Acc,
+    /// `client::Connection::poll_close`, called directly
+    Clo,
+    /// the future of `client::Connection::wait_idle`
+    Idl,
+}
+
+fn build_client(net: &crate::sim::NetRef) -> (h3::client::Connection<SimConn, Bytes>, h3::client::SendRequest<crate::sim::SimOpen, Bytes>) {
+    let mut b = h3::client::builder();
+    b.send_grease(false);
+    let mut f: Pin<Box<dyn Future<Output = _>>> =
+        Box::pin(b.build::<SimConn, crate::sim::SimOpen, Bytes>(SimConn { net: net.clone() }));
+    match crate::sim::poll_once(&mut f) {
+        Poll::Ready(r) => r.expect("client build"),
+        Poll::Pending => panic!("client build pending"),
+    }
+}
+
+/// The transport stops the driver thread inside `poll_accept_bidi` (the last thing a poll of
+/// `accept` / `poll_close` / `wait_idle` does on an idle connection): `D.park` makes the transport
+/// answer `Pending`, `D.det:<quic error>` makes it fail with that error, and — client only —
+/// `D.det:I259.<tag>` makes it hand out a server-initiated bidirectional stream, which h3 itself
+/// answers with H3_STREAM_CREATION_ERROR.
+fn install_gate(ctl: &Arc<Ctl>, net: &crate::sim::NetRef, client: bool) {
     let ctl2 = ctl.clone();
     let net2 = net.clone();
     net.borrow_mut().accept_bidi_gate = Some(Box::new(move || {
         ctl2.report("pend".to_string(), Some(closes_of(&net2)));
         match ctl2.wait_grant(0) {
+            Cmd::Drv(DOp::Det(Err::Internal(259, _))) if client => {
+                let mut n = net2.borrow_mut();
+                // the waker an earlier poll left at the transport is not the connection's waker:
+                // the arrival of the stream must not look like a notification from the error cell
+                n.accept_bidi_waker = None;
+                n.peer_open(1);
+                None
+            }
             Cmd::Drv(DOp::Det(e)) if !matches!(e, Err::Internal(..)) => Some(quic_of(&e)),
             _ => None,
         }
     }));
+}
+
+/// The driver thread, modes `acc` / `clo` / `idl`: `D.poll` starts one poll of the `accept()`
+/// future (of `poll_close`, of the `wait_idle()` future), which runs up to the first
+/// `poll_connection_error`; the following `D.pce` labels run it from pre-emption point to
+/// pre-emption point; after the last `poll_connection_error` of the poll the transport's
+/// `poll_accept_bidi` is reached (see `install_gate`).
+fn driver_thread_fut(mode: Mode, ctl: Arc<Ctl>, flag: Arc<Flag>, tx: mpsc::Sender<Arc<SharedState>>) {
+    let client = mode != Mode::Acc;
+    let net = Net::new(!client);
+    enum Drv {
+        Server(h3::server::Connection<SimConn, Bytes>),
+        // the `SendRequest` is kept to the end of the case: dropping the last one raises
+        // H3_NO_ERROR through the error cell
+        #[allow(dead_code)]
+        Client(h3::client::Connection<SimConn, Bytes>, h3::client::SendRequest<crate::sim::SimOpen, Bytes>),
+    }
+    let mut drv = if client {
+        let (c, s) = build_client(&net);
+        Drv::Client(c, s)
+    } else {
+        Drv::Server(build_server(&net))
+    };
+    let shared = match &drv {
+        Drv::Server(c) => c.inner.shared.clone(),
+        Drv::Client(c, _) => c.inner.shared.clone(),
+    };
+    let _ = tx.send(shared);
+    ME.with(|m| *m.borrow_mut() = Some(Me { ctl: ctl.clone(), id: 0, acc: true, rounds: 0, net: Some(net.clone()) }));
+    install_gate(&ctl, &net, client);
     'outer: loop {
         // idle: only `D.poll` is sent here
         match ctl.wait_grant(0) {
@@ -512,14 +576,28 @@ fn driver_thread_acc(ctl: Arc<Ctl>, flag: Arc<Flag>, tx: mpsc::Sender<Arc<Shared
         flag.woken.store(false, Ordering::SeqCst);
         let waker = next_waker(&flag);
         ME.with(|m| m.borrow_mut().as_mut().unwrap().rounds = 0);
-        let out = {
-            let mut fut = Box::pin(conn.accept());
-            let mut cx = Context::from_waker(&waker);
-            match fut.as_mut().poll(&mut cx) {
-                Poll::Pending => "park".to_string(),
-                Poll::Ready(Ok(Some(_))) => "request".to_string(),
-                Poll::Ready(Ok(None)) => "none".to_string(),
-                Poll::Ready(Err(e)) => format!("E:{}", show_cerr(&e)),
+        let mut cx = Context::from_waker(&waker);
+        let out = match &mut drv {
+            Drv::Server(conn) => {
+                let mut fut = Box::pin(conn.accept());
+                match fut.as_mut().poll(&mut cx) {
+                    Poll::Pending => "park".to_string(),
+                    Poll::Ready(Ok(Some(_))) => "request".to_string(),
+                    Poll::Ready(Ok(None)) => "none".to_string(),
+                    Poll::Ready(Err(e)) => format!("E:{}", show_cerr(&e)),
+                }
+            }
+            Drv::Client(conn, _) => {
+                let r = if mode == Mode::Clo {
+                    conn.poll_close(&mut cx)
+                } else {
+                    let mut fut = Box::pin(conn.wait_idle());
+                    fut.as_mut().poll(&mut cx)
+                };
+                match r {
+                    Poll::Pending => "park".to_string(),
+                    Poll::Ready(e) => format!("E:{}", show_cerr(&e)),
+                }
             }
         };
         ctl.report(out, Some(closes_of(&net)));
@@ -556,7 +634,8 @@ fn parse_label(s: &str) -> Option<Label> {
     }
 }
 
-fn run_case(acc: bool, specs: Vec<Vec<Err>>, labels: Vec<Label>) -> String {
+fn run_case(mode: Mode, specs: Vec<Vec<Err>>, labels: Vec<Label>) -> String {
+    let acc = mode != Mode::Pce;
     INSTALL.call_once(|| h3::verif_hooks::install(hook));
     let n = specs.len();
     let ctl = Arc::new(Ctl { m: Mutex::new(CtlState::default()), controller: std::thread::current(), tasks: Mutex::new(Vec::new()) });
@@ -584,7 +663,7 @@ fn run_case(acc: bool, specs: Vec<Vec<Err>>, labels: Vec<Label>) -> String {
     {
         let (c, f) = (ctl.clone(), flag.clone());
         let job: Box<dyn FnOnce() + Send> =
-            Box::new(move || if acc { driver_thread_acc(c, f, tx) } else { driver_thread_pce(c, f, tx) });
+            Box::new(move || if mode == Mode::Pce { driver_thread_pce(c, f, tx) } else { driver_thread_fut(mode, c, f, tx) });
         let _ = pool.jobs[0].send(guarded_job(ctl.clone(), job));
     }
     let Ok(shared) = rx.recv() else {
@@ -739,9 +818,11 @@ pub fn handle(w: &[&str]) -> String {
         return "bad-op".into();
     }
     let moving = w[0] == "cellmv";
-    let acc = match w[1] {
-        "pce" => false,
-        "acc" => true,
+    let mode = match w[1] {
+        "pce" => Mode::Pce,
+        "acc" => Mode::Acc,
+        "clo" => Mode::Clo,
+        "idl" => Mode::Idl,
         _ => return "bad-op".into(),
     };
     let Some(colon) = w.iter().position(|x| *x == ":") else { return "bad-op".into() };
@@ -756,7 +837,7 @@ pub fn handle(w: &[&str]) -> String {
     let Some(labels) = labels else { return "bad-op".into() };
     guarded(move || {
         MOVING.store(moving, Ordering::SeqCst);
-        let out = run_case(acc, specs, labels);
+        let out = run_case(mode, specs, labels);
         if moving {
             reduce_mv(&out)
         } else {
